@@ -22,7 +22,8 @@ MIN_COUNTERS = {'files_parsed': 2000, 'attribute_comparisons': 2000, 'files_with
 ANCHOR_FILES = ['droop/profile.py']
 
 NICKS = ['a', 'bo', 'Cy', 'dd', 'e5', 'fox', 'g_', 'Hh', 'ii', 'jay', 'k9', 'el', 'em', 'en', 'oh', 'pe',
-         '\u2461', '\u00b3', '\u2460\u2462', 'x\u00b2', '\u0663a', '\u2166']     # digit-like characters that are not decimal numbers are nicknames too
+         '\u2461', '\u00b3', '\u2460\u2462', 'x\u00b2', '\u0663a', '\u2166',     # digit-like characters that are not decimal numbers are nicknames too
+         '0_3', '0_1', '1_2', '2_1', '+2', '+1', '1e1', '1.0', '0x2', '_1', '1_', '0b1', '1j', '٣_٣']     # ... and so is anything that is not all digits
 
 
 def rich_structure(rng, big=False):
